@@ -286,22 +286,24 @@ def gen_lim(rng, tier):
     for h in [-2, -1, 0, 1, 2, 255, 256, 32767, 32768, 65534, 65535, 65536, 65537, 1 << 20, 1 << 31] + \
             [rng.below(70000) for _ in range(60)]:
         cases.append(("cltrunc", h))
-    for n in ([1, 2, 255, 256, 257, 4096, 65534, 65535, 65536, 65537] if tier == "quick" else
-              [1, 2, 255, 256, 257, 4096, 32767, 32768, 65534, 65535, 65536, 65537, 70000]):
-        ks = sorted(set(k for k in (1, 2, 255, 256, 257, n - 1, n, 32768, 65535) if 1 <= k <= min(n, 65535)))
+    for n in ([1, 2, 255, 256, 257, 4096, 30000, 30001, 65531, 65532, 65533, 65534] if tier == "quick" else
+              [1, 2, 255, 256, 257, 4096, 30000, 30001, 32767, 32768, 60000, 60001, 65530, 65531, 65532, 65533, 65534, 65535, 65536, 70000]):
+        ks = sorted(set(k for k in (1, 2, 255, 256, 257, n - 1, n, 30000, 30001, 32768, 65532) if 1 <= k <= min(n, 65532)))
         cases.append(("const", n, ks))
         if n <= 65537:
             cases.append(("clos", n, ks))
-    dists = [-70000, -65537, -65536, -65535, -40000, -32770, -32769, -32768, -32767, -32766, -300, -2, -1, 0, 1, 2, 300,
-             32766, 32767, 32768, 32769, 32770, 40000, 65535, 65536, 65537, 70000]
-    for d in dists:
+    # (from, to, len): both addresses inside a function of len opcodes (to == len: label at the end)
+    jl = [(0, 0, 1), (0, 1, 1), (0, 5, 9), (5, 0, 9), (3, 3, 4), (0, 300, 300), (299, 0, 300),
+          (0, 32766, 32767), (0, 32767, 32767), (32766, 0, 32767), (32766, 32767, 32767), (16000, 16001, 32767),
+          (0, 32767, 32768), (0, 32768, 32768), (32767, 0, 32768), (1, 2, 32768), (0, 32769, 32770), (32769, 1, 32770),
+          (0, 40000, 40001), (40000, 0, 40001), (5, 6, 40001), (0, 65535, 65536), (0, 65536, 65536), (65535, 0, 65536),
+          (0, 65537, 65538), (0, 70000, 70001), (69999, 3, 70000)]
+    for (frm, to, ln) in jl:
         for kind in ("j", "jif", "jifn"):
-            frm = max(0, -d) + (3 if kind == "j" else 0)
-            cases.append(("jump", kind, frm, frm + d))
+            cases.append(("jump", kind, frm, to, ln))
     for _ in range(20 if tier == "quick" else 300):
-        d = rng.below(90000) - 45000
-        frm = max(0, -d) + rng.below(50)
-        cases.append(("jump", rng.choice(["j", "jif", "jifn"]), frm, frm + d))
+        ln = rng.choice([rng.below(40000) + 1, 32767 - rng.below(3), 32768 + rng.below(3), rng.below(300) + 1])
+        cases.append(("jump", rng.choice(["j", "jif", "jifn"]), rng.below(ln), rng.below(ln + 1), ln))
     # register allocator histories
     nh = 120 if tier == "quick" else 2000
     for h in range(nh):
@@ -339,7 +341,7 @@ def lim_line(c):
     if c[0] in ("const", "clos"):
         return "%s %x %s" % (c[0], c[1], ",".join("%x" % k for k in c[2]) or "-")
     if c[0] == "jump":
-        return "jump %s %s %s" % (c[1], hx(c[2]), hx(c[3]))
+        return "jump %s %s %s %s" % (c[1], hx(c[2]), hx(c[3]), hx(c[4]))
     return "%s %s" % (c[0], hx(c[1]))
 
 
@@ -349,9 +351,9 @@ def lim_in_range(c):
     if c[0] == "cltrunc":
         return 0 <= c[1] <= 65535
     if c[0] in ("const", "clos"):
-        return c[1] <= 65535
+        return c[1] + (c[1] + 29999) // 30000 <= 65535     # m children + n loads, constant 0 is the main function
     if c[0] == "jump":
-        return -32768 <= c[3] - c[2] <= 32767
+        return c[4] <= 32767
     return None
 
 
@@ -371,7 +373,8 @@ def lim_spec_ok(c, out):
         s = spec_decode(ws[0])
         return s["pfx"] == 4 << 28 and s["yj"] == 3 and s["f"] == 0 and s["n"] == c[1]
     if c[0] in ("const", "clos"):
-        return all(spec_decode(w)["n"] == k and spec_decode(w)["pfx"] == 6 << 28 and
+        m = (c[1] + 29999) // 30000
+        return all(spec_decode(w)["n"] == m + k and spec_decode(w)["pfx"] == 6 << 28 and
                    spec_decode(w)["yj"] == (1 if c[0] == "const" else 2) for w, k in zip(ws, c[2]))
     if c[0] == "jump":
         s = spec_decode(ws[0])
@@ -597,7 +600,9 @@ return table.concat(names, " ")
 RECURSION = [
     # (label, family, source, acceptable statuses)
     ("call_self", "meta", "local t = {} setmetatable(t, {__call = t}) return pcall(t)"),
-    ("call_chain_200", "meta-bounded", "local f = function() return 7 end for i = 1, 200 do f = setmetatable({}, {__call = f}) end return f()"),
+    ("call_chain_90", "meta-bounded", "local f = function(...) return select('#', ...) end for i = 1, 90 do f = setmetatable({}, {__call = f}) end return f(1, 2)"),
+    ("call_chain_5000", "meta", "local f = function() return 7 end for i = 1, 5000 do f = setmetatable({}, {__call = f}) end return pcall(f)"),
+    ("call_self_vm", "meta", "local t = {} setmetatable(t, {__call = t}) return pcall(function() return t() end)"),
     ("index_self", "meta-bounded", "local t = {} setmetatable(t, {__index = t}) return pcall(function() return t.x end)"),
     ("newindex_self", "meta-bounded", "local t = {} setmetatable(t, {__newindex = t}) return pcall(function() t.x = 1 end)"),
     ("index_chain_1000", "meta-bounded", "local t = {x = 1} for i = 1, 1000 do t = setmetatable({}, {__index = t}) end return pcall(function() return t.x end)"),
@@ -777,14 +782,16 @@ def run(tier, seed):
                 k = ck.known_match(lambda k: k["id"] == "C04-limit-string-panic" and c[0] in k["match"]["lim_kinds"])
                 if k:
                     ck.known_finding(k)
-                else:
+                elif ck.cov["distribution"].get("viol:limP:" + c[0], 0) < 2:
+                    ck.count("viol:limP:" + c[0])
                     ck.violation("exceeding a compiler limit panics instead of a compile error: " + short,
                                  {"kind": "Go!=S", "engine": "lim", "case": short, "impl": out[:300]})
             elif cls == "T":
                 k = ck.known_match(lambda k: k["id"] == "C04-int16-code-offsets" and c[0] in k["match"]["lim_kinds"])
                 if k:
                     ck.known_finding(k)
-                else:
+                elif ck.cov["distribution"].get("viol:limT", 0) < 2:
+                    ck.count("viol:limT")
                     ck.violation("jump distance beyond int16 silently truncated: " + short,
                                  {"kind": "Go!=S", "engine": "lim", "case": short, "impl": out[:300]})
             else:
@@ -804,7 +811,7 @@ def run(tier, seed):
         ck.violation("implementation no longer matches the Coq model VM/Opcode.v / VM/Limits.v (Go≈IM/%s); %d differences" % (eng, len(stale)),
                      {"kind": "Go!=IM", "correspondence": "Go≈IM/limits." + eng, "case": case, "impl": a, "model": b, "differences": len(stale),
                       "theorems_no_longer_about_this_code": ["C04_encode_decode_roundtrip", "C04_limit_in_range_encodes",
-                                                              "C04_limit_out_of_range_classified", "C04_limit_is_compile_error_refuted",
+                                                              "C04_limit_is_compile_error", "C04_compile_never_panics_nor_truncates",
                                                               "C04_registers_fit_every_history"]},
                      no_input=not any(not v[1] for v in ck.violations))
     if not ok_obl:
@@ -864,6 +871,44 @@ def explore(ck, lr, tier):
         ck.count("src:%s:%s" % (fam, res["status"]))
         bad_total += judge(ck, lr, fam, label, src, exp, res, lines[i], quick)
     ck.sample({"source_case": cases[-1][1], "bytes": len(cases[-1][2]), "result": outs[-1][:200] if outs else None})
+
+    # ---- static check of every unit the real compiler produced for these sources (+ golua's own Lua test files):
+    #      model's check_code (proved sound: C04_check_code_sound) on the dumped code
+    wsrc = [(label, src) for (fam, label, src, exp, opts) in cases if len(src) <= (300000 if quick else 3000000)]
+    wsrc += [("sweep", (SWEEP_LUA % ("string.rep", 0, 1, len(POOL_LABELS))).encode()), ("list", LIST_LUA.encode())]
+    wsrc += [("rec:" + l, s_.encode()) for (l, f_, s_) in RECURSION]
+    for root, _, files in os.walk(vlib.REPO):
+        if "/lua" in root and "/verif" not in root:
+            for fn in sorted(files):
+                if fn.endswith(".lua"):
+                    try:
+                        wsrc.append(("repo:" + os.path.relpath(os.path.join(root, fn), vlib.REPO), open(os.path.join(root, fn), "rb").read()))
+                    except OSError:
+                        pass
+    ck.log("static check of compiled units: %d sources" % len(wsrc))
+    dl = ["w%d %s" % (i, lua_hex(src)) for i, (label, src) in enumerate(wsrc)]
+    dumps = vlib.run_lines_resilient(lr.bin, ["dump"], dl, per_case_timeout=120)
+    comp = [(i, d) for i, d in enumerate(dumps) if " K" in d and " W" in d]
+    for i, d in enumerate(dumps):
+        st = d.split(" ")[1] if " " in d else "?"
+        if st in ("CRASH", "HANG", "panic"):
+            ck.violation("compile function crashed on %s: %s" % (wsrc[i][0], d[:200]),
+                         {"kind": "Go!=S", "engine": "lua", "family": "compile", "label": wsrc[i][0], "status": st,
+                          "source": wsrc[i][1][:4000].decode("latin-1"), "source_bytes": len(wsrc[i][1]), "opts": ""})
+    rc, wf, e = vlib.run_lines(os.path.join(vlib.ORACLE, "limits", "oracle.exe"), ["wf"], [d for _, d in comp], timeout=1800)
+    nbad = 0
+    for (i, d), o in zip(comp, wf):
+        ck.count("wf:" + o.split(" ")[1])
+        ck.case("wf " + wsrc[i][0] + str(len(d)), True)
+        if " ok " not in o:
+            nbad += 1
+            if nbad <= 3:
+                ck.violation("compiled code fails the static check (register/cell/constant/jump target out of range): %s -> %s" % (wsrc[i][0], o),
+                             {"kind": "Go!=S", "engine": "wf", "label": wsrc[i][0], "result": o, "source": wsrc[i][1][:4000].decode("latin-1"),
+                              "source_bytes": len(wsrc[i][1]), "theorems": ["C04_check_code_sound"]})
+    if rc != 0 or len(wf) != len(comp):
+        ck.violation("oracle wf crashed (%d/%d)" % (len(wf), len(comp)), {"kind": "oracle-crash", "stderr": e[-2000:]}, no_input=True)
+    ck.cov["units_checked"] = len(comp)
 
     # ---- (b) library sweep
     lo = lr.run(["n %s" % lua_hex(LIST_LUA)], timeout=30)
